@@ -601,6 +601,11 @@ func (c *Compiler) structCode(typ *runtime.Type, isPtr bool) (*StructCode, error
 		}
 		if field.isAnonymous {
 			structCode := field.getAnonymousStruct()
+			if structCode != nil && structCode.isRecursive {
+				// a struct that embeds itself ( type T struct{ *T; ... } ): the embedded
+				// members are hidden by this struct's own, the embedding adds nothing
+				continue
+			}
 			if structCode != nil {
 				structCode.removeFieldsByTags(ownTags)
 				if c.isAssignableIndirect(field, isPtr) {
